@@ -83,10 +83,10 @@ type tsState struct {
 	cells  map[ssa.Value]string // cell alloc → token or NIL
 	preds  map[string]bool
 	defers []tsDefer
-	pub    map[string]bool // tokens (local allocs) that have been published to a shared table
-	ent    map[string]string // ownership (E9): token → "B" bound handle, "N" nil, "R" released but still stored
-	unb    map[string]bool   // token's table entry has been deleted on this path
-	file   map[string]bool   // token's File has been set on this path
+	pub    map[string]bool    // tokens (local allocs) that have been published to a shared table
+	ent    map[string]string  // ownership (E9): token → "B" bound handle, "N" nil, "R" released but still stored
+	unb    map[string]bool    // token's table entry has been deleted on this path
+	file   map[string]bool    // token's File has been set on this path
 	pend   map[ssa.Value]bool // handles obtained from Dirent.Create / FileSys.Attach not yet bound or released
 	notes  []string
 }
@@ -254,13 +254,13 @@ func (ts *TS) violate(rule, key string, pos token.Pos, reason string) {
 }
 
 type tsCtx struct {
-	fn      *ssa.Function
-	fa      *FA
-	env     map[*ssa.FreeVar]ssa.Value // closure free variable → binding in the parent
-	parent  *tsCtx
-	entry   map[string]bool // tokens assumed held at entry (requires-held summaries)
-	rootFn  *ssa.Function
-	prefix  string
+	fn     *ssa.Function
+	fa     *FA
+	env    map[*ssa.FreeVar]ssa.Value // closure free variable → binding in the parent
+	parent *tsCtx
+	entry  map[string]bool // tokens assumed held at entry (requires-held summaries)
+	rootFn *ssa.Function
+	prefix string
 }
 
 // tokOf resolves a pointer-typed SSA value to a token name in the current state.
